@@ -15,6 +15,7 @@ Definition toy_sem (dom op : string) (attrs : list (string * attrv)) (args : lis
   else if String.eqb op "Neg" then match args with [Some a] => Some [(- a)%Z] | _ => None end
   else if String.eqb op "CastLike" then match args with [Some a; Some _] => Some [a] | _ => None end
   else if String.eqb op "Identity" then match args with [Some a] => Some [a] | _ => None end
+  else if String.eqb op "DivMod10" then match args with [Some a] => Some [(a / 10)%Z; (a mod 10)%Z] | _ => None end
   else None.
 
 Definition ex_f : func :=
@@ -22,7 +23,8 @@ Definition ex_f : func :=
      f_body := [SAssign "t" (EBin "Add" (EVar "x") (ELit (LInt 2)));
                 SAssign "x" (EBin "Mult" (EUn "USub" (EVar "t")) (EVar "tmp"));
                 SAssign "tmp" (ECall (COp "Add") [Some (ELit (LInt 1)); Some (EVar "x")] []);
-                SReturn [EVar "tmp"; EVar "tmp"; EVar "t"]] |}.
+                STuple ["q"; "t"] (ECall (COp "DivMod10") [Some (EUn "USub" (EVar "tmp"))] []);
+                SReturn [EVar "tmp"; EVar "tmp"; EVar "t"; EVar "q"]] |}.
 
 Definition ex_graph : option graph := translate false [] (fun _ => None) 5 [] ex_f.
 
@@ -35,12 +37,13 @@ Lemma ex_hyps :
     f_body ex_f = (pre ++ [SReturn es])%list /\ assigns_ok pre = true /\ forallb expr_ok es = true /\
     f_aparams ex_f = [] /\ NoDup (f_tparams ex_f) /\
     translate false [] (fun _ => None) 5 [] ex_f = Some g /\
-    List.length (g_nodes g) = 9 /\
+    List.length (g_nodes g) = 11 /\
     eval_script Z toy_sem (fun z => Some (Z.eqb z 0)) (fun z => Some (Z.to_nat z)) Z.of_nat 10 [] 3 ex_f [5%Z; 3%Z]
-      = Some [(-20)%Z; (-20)%Z; 7%Z].
+      = Some [(-20)%Z; (-20)%Z; 0%Z; 2%Z].
 Proof.
-  eexists. exists (removelast (f_body ex_f)), [EVar "tmp"; EVar "tmp"; EVar "t"].
+  eexists. exists (removelast (f_body ex_f)), [EVar "tmp"; EVar "tmp"; EVar "t"; EVar "q"].
   split; [reflexivity|]. split; [reflexivity|]. split; [reflexivity|]. split; [reflexivity|].
   split; [repeat constructor; cbn; intuition discriminate|].
   split; [vm_compute; reflexivity|]. split; vm_compute; reflexivity.
 Qed.
+
